@@ -33,9 +33,10 @@ class RequestChannelRequester(RequestChannelCommon, Requester):
         )
 
     def subscribe(self, subscriber: Subscriber):
-        self.setup()
-        # the request frame is queued first: a subscriber may call request(n) or cancel() from inside on_subscribe
+        # the request frame is queued first: the local publisher may signal as soon as it is subscribed (an empty publisher
+        # completes at once), and a subscriber may call request(n) or cancel() from inside on_subscribe
         self._send_channel_request(self._payload)
+        self.setup()
         super().subscribe(subscriber)
 
         if self._publisher is None:
